@@ -263,6 +263,10 @@ def run(ctx):
             got = bool(h) and h.get("result") == "ok"
             bins = [(lang, role, rc2) for (lang, role), (rc2, _, diag) in emitted[k][fs["main"]].items() if not (lang == "java" and rc2 != 0)]
             big_checked += 1
+            # the bound does not depend on --allow-undefined-behavior (that flag is about constant ranges)
+            root = os.path.join(work, "cases", str(k))
+            rub = scrape.idlc_run(ctx["idlc"], os.path.join(root, fs["main"]), os.path.join(root, "ub.h"), "c", False, extra=["--allow-undefined-behavior"])
+            bins.append(("c", "stub+allow-undefined-behavior", rub[0]))
             if got != want or any((rc2 == 0) != want for _, _, rc2 in bins if _ != "java"):
                 res["failures"].append({"property": prop, "big_split": split, "harness": (h or {}).get("result"), "exit_codes": bins,
                                         "how_to_build": "one file: interface IB0 with split[0] methods m0_<i>(), IB1 : IB0 with split[1] methods m1_<i>(), ...",
